@@ -180,7 +180,9 @@ CHECKS = {
              '(all must be dead), plus the error-class registry unchanged.'
              ' (e) a dispatch cancelled at a seeded virtual instant while its elements are suspended: afterwards a probe '
              'request must be answered as by a fresh dispatcher, nothing of the cancelled dispatch may make progress, and '
-             'its context must be collectable.',
+             'its context must be collectable.'
+             ' (f) a census of all gc-tracked objects by type before and after 200-400 dispatches that differ in every '
+             'client-controlled part (token, id, params, method name): no type may grow with the number of requests.',
         note='Trusted: baton scheduler (pre-emption only at line events of pjrpc / service files), CPython gc as the '
              'oracle for "no strong reference kept". The pydantic variant runs only if a smoke validation succeeds under '
              'the installed pydantic; the evidence says whether it ran.',
